@@ -904,6 +904,8 @@ def _guard_conflict(g1, g2):
 def compare_pairwise(ref_cells, new_cells, report):
     """every pair of cells that can apply to the same situation must give the same result; every cell must have a partner"""
     n = 0
+    ref_cells = [c for c in ref_cells if not _guard_conflict(c["guards"], c["guards"])]
+    new_cells = [c for c in new_cells if not _guard_conflict(c["guards"], c["guards"])]
     for which, A, B in (("reference", ref_cells, new_cells), ("code", new_cells, ref_cells)):
         for a in A:
             partners = 0
